@@ -1,9 +1,9 @@
 package props
 
 import (
-	"encoding/json"
 	"fmt"
 	"io"
+	"net"
 	"net/http"
 	"net/url"
 	"os"
@@ -11,7 +11,9 @@ import (
 	"strings"
 	"sync"
 	"sync/atomic"
+	"syscall"
 	"testing"
+	"time"
 
 	wt "github.com/hnakamur/whispertool"
 	"github.com/hnakamur/whispertool/cmd"
@@ -37,15 +39,12 @@ type C17Case struct {
 	From      int64    `json:"from"`
 	Until     int64    `json:"until"`
 	Requests  []string `json:"requests,omitempty"` // http: paths with query, relative to the served subtree marker %SUB%
+	// Aborts: before the parallel batch, this many clients request a ~1 MB response, read 100 bytes and
+	// hang up (the server's response write fails); the later requests must be unaffected
+	Aborts int `json:"aborts,omitempty"`
 }
 
-func noteLastCase(c interface{}) {
-	if out := os.Getenv("VERIF_EVID_OUT"); out != "" {
-		if b, err := json.Marshal(c); err == nil {
-			os.WriteFile(out+".lastcase", b, 0644)
-		}
-	}
-}
+func noteLastCase(c interface{}) { noteCaseInFlight(c) }
 
 type readResult struct {
 	Fetch fetchResult
@@ -153,29 +152,106 @@ func runC17(c C17Case, ev *Evid) (fs []Finding) {
 		}
 		ev.Count(HashJSON(c), overlapSameArchive > 0, "kind=handle", fmt.Sprintf("goroutines=%d", len(c.Calls)))
 	case "sum":
+		// real wall clock (no bubble): another goroutine holds the lock of the first file for a few
+		// milliseconds so that the per-file reads complete out of glob order; the result must still be
+		// what summing the files one at a time, in glob order, gives - header of the first file and
+		// left-to-right floating-point sums (the values are chosen to be order sensitive)
 		base := filepath.Join(dir, "tree")
-		if err := buildTree(base, c.Files, c.Now); err != nil {
+		buildNow := time.Now().Unix()
+		files := make([]TreeFile, len(c.Files))
+		for i, f := range c.Files {
+			// re-date the generated writes relative to the real clock
+			g := f
+			g.Spec.Writes = nil
+			for _, w := range f.Spec.Writes {
+				g.Spec.Writes = append(g.Spec.Writes, SlotWrite{Arch: w.Arch, T: w.T - c.Now + buildNow, V: w.V})
+			}
+			files[i] = g
+		}
+		if err := buildTree(base, files, buildNow); err != nil {
 			add("setup", "%v", err)
 			return
 		}
+		firstPath := filepath.Join(base, files[0].Dir, files[0].Name)
+		held := make(chan struct{})
+		release := make(chan struct{})
+		go func() {
+			fd, err := syscall.Open(firstPath, syscall.O_RDONLY, 0)
+			if err == nil {
+				syscall.Flock(fd, syscall.LOCK_EX)
+			}
+			close(held)
+			time.Sleep(time.Duration(5+c.ArchiveID+2) * time.Millisecond)
+			if err == nil {
+				syscall.Close(fd)
+			}
+			close(release)
+		}()
+		<-held
 		out := filepath.Join(dir, "sum.txt")
-		sc := &cmd.SumCommand{SrcBase: base, ItemPattern: "s1", SrcPattern: "*.wsp", From: wt.Timestamp(c.From), Until: wt.Timestamp(c.Until), ArchiveID: c.ArchiveID, TextOut: out}
-		err, pm := runCommand(c.Now, sc)
+		sc := &cmd.SumCommand{SrcBase: base, ItemPattern: "s1", SrcPattern: "*.wsp", ArchiveID: c.ArchiveID, TextOut: out, ShowHeader: true}
+		var err error
+		pm := guard(func() { err = sc.Execute() })
+		<-release
 		if pm != "" || err != nil {
-			add("sum-fails", "sum over %d files: %v %s", len(c.Files), err, pm)
+			add("sum-fails", "sum over %d files: %v %s", len(files), err, pm)
 			return
 		}
-		e := expectedSum(base, "s1", "*.wsp", c.ArchiveID, c.From, effUntil(c.Until, c.Now), c.Now, layoutMap(base, c.Files))
-		got, perr := parsePointRecords(parseLTSV(readText(out)))
+		recs := parseLTSV(readText(out))
+		usedNow := int64(0)
+		for _, r := range recs {
+			if v, ok := r["now"]; ok {
+				usedNow, _ = parseTime(v)
+			}
+		}
+		if usedNow == 0 {
+			add("sum-output", "no now: record in the output")
+			return
+		}
+		// sequential reference: glob order, left to right
+		l := files[0].Spec.L
+		var want []*Series
+		for a := range l.Archives {
+			if c.ArchiveID != -1 && c.ArchiveID != a {
+				want = append(want, nil)
+				continue
+			}
+			var acc *Series
+			for _, f := range files {
+				rs, rerr := readArchives(filepath.Join(base, f.Dir, f.Name), l, 0, usedNow, usedNow)
+				if rerr != nil || rs[a].Nil {
+					continue
+				}
+				if acc == nil {
+					acc = &Series{From: rs[a].S.From, Until: rs[a].S.Until, Step: rs[a].S.Step, Values: append([]float64(nil), rs[a].S.Values...)}
+					continue
+				}
+				for k, v := range rs[a].S.Values {
+					switch {
+					case acc.Values[k] != acc.Values[k]:
+						acc.Values[k] = v
+					case v == v:
+						acc.Values[k] += v
+					}
+				}
+			}
+			want = append(want, acc)
+		}
+		got, perr := parsePointRecords(recs)
 		if perr != "" {
 			add("sum-output", "%s", perr)
 			return
 		}
-		if d := compareSeriesRecords(got, e.Series); d != "" {
-			add("concurrent-differs", "sum over %d files read concurrently differs from the files summed one at a time: %s", len(c.Files), d)
+		if d := compareSeriesRecordsExact(got, want); d != "" {
+			add("concurrent-differs", "sum over %d files whose reads completed out of order differs from the files summed one at a time in glob order: %s", len(files), d)
 			return
 		}
-		ev.Count(HashJSON(c), len(c.Files) >= 2, "kind=sum", fmt.Sprintf("files>=%d", len(c.Files)/10*10))
+		first := files[0].Spec.L
+		if d := checkHeaderBlock(recs, first); d != "" {
+			add("concurrent-differs", "sum over %d files: the header is not the first file's (glob order): %s", len(files), d)
+			return
+		}
+		ev.Count(HashJSON(c), len(files) >= 2, "kind=sum", fmt.Sprintf("files>=%d", len(files)/10*10))
 	case "http":
 		root, base, err := startServer()
 		if err != nil {
@@ -183,6 +259,7 @@ func runC17(c C17Case, ev *Evid) (fs []Finding) {
 		}
 		sub := fmt.Sprintf("r%d", atomic.AddInt64(&c12Counter, 1))
 		defer os.RemoveAll(filepath.Join(root, sub))
+		defer os.RemoveAll(filepath.Join(root, "linked-"+sub))
 		if err := buildTree(filepath.Join(root, sub), c.Files, c.Now); err != nil {
 			add("setup", "%v", err)
 			return
@@ -208,6 +285,26 @@ func runC17(c C17Case, ev *Evid) (fs []Finding) {
 				parts = append(parts, k+"="+url.QueryEscape(v))
 			}
 			reqs[i] = path + "?" + strings.Join(parts, "&")
+		}
+		if c.Aborts > 0 {
+			big := Layout{Archives: []Arch{{Step: 1, Points: 90000}}, Method: 2}
+			bigRel := c.Files[0].Dir + "/big.wsp"
+			if err := buildFile(filepath.Join(root, sub, bigRel), FileSpec{L: big}, c.Now); err != nil {
+				add("setup", "%v", err)
+				return
+			}
+			addr := strings.TrimPrefix(base, "http://")
+			for i := 0; i < c.Aborts; i++ {
+				conn, err := net.Dial("tcp", addr)
+				if err != nil {
+					continue
+				}
+				fmt.Fprintf(conn, "GET /view-raw?file=%s&retention=-1 HTTP/1.1\r\nHost: x\r\n\r\n", url.QueryEscape(sub+"/"+bigRel))
+				buf := make([]byte, 100)
+				io.ReadFull(conn, buf)
+				conn.Close()
+			}
+			time.Sleep(2 * time.Millisecond)
 		}
 		conc := make([]string, len(reqs))
 		errs := make([]error, len(reqs))
@@ -246,6 +343,9 @@ func runC17(c C17Case, ev *Evid) (fs []Finding) {
 			}
 		}
 		cls := []string{"kind=http", fmt.Sprintf("requests>=%d", len(reqs)/8*8)}
+		if c.Aborts > 0 {
+			cls = append(cls, "after-aborted-clients")
+		}
 		if bodies > 0 {
 			cls = append(cls, "http-data-responses")
 		}
@@ -313,9 +413,17 @@ func genC17(t *rapid.T) C17Case {
 		c := C17Case{Kind: kind, Now: now, ArchiveID: -1}
 		n := rapid.IntRange(2, 40).Draw(t, "files")
 		for i := 0; i < n; i++ {
-			c.Files = append(c.Files, TreeFile{Dir: "s1", Name: fmt.Sprintf("f%02d.wsp", i), Spec: FileSpec{L: l, Writes: genWrites(t, l, now, valDyadic, 10)}})
+			fl := l
+			if rapid.IntRange(0, 3).Draw(t, "otherMeta") == 0 {
+				// same archives, other method / xFilesFactor: still summable; the header shown is the first file's
+				fl.Method = rapid.IntRange(1, 6).Draw(t, "method")
+				fl.XFF = rapid.SampledFrom([]float32{0, 0.5, 1, 0.25}).Draw(t, "xff")
+			}
+			c.Files = append(c.Files, TreeFile{Dir: "s1", Name: fmt.Sprintf("f%02d.wsp", i), Spec: FileSpec{L: fl, Writes: genWrites(t, fl, now, valGeneral, 10)}})
 		}
-		c.From, c.Until = genCLIWindow(t, l, now)
+		if rapid.IntRange(0, 2).Draw(t, "oneArchive") == 0 {
+			c.ArchiveID = rapid.IntRange(0, len(l.Archives)-1).Draw(t, "archive")
+		}
 		return c
 	default:
 		l := genCLILayout(t)
@@ -323,6 +431,9 @@ func genC17(t *rapid.T) C17Case {
 		c := C17Case{Kind: kind, Now: now, ArchiveID: -1}
 		c.Files = genTree(t, l, now, false)
 		p := rapid.IntRange(2, 24).Draw(t, "requests")
+		if rapid.IntRange(0, 3).Draw(t, "aborts") == 0 {
+			c.Aborts = rapid.IntRange(1, 3).Draw(t, "abortCount")
+		}
 		if rapid.IntRange(0, 2).Draw(t, "sameSum") == 0 {
 			// the same /sum request at several clock values, in flight together, on an item with many
 			// files (a slow handler): each must get the answer for ITS clock
@@ -384,8 +495,8 @@ func replaceSlash(s string) string {
 func TestC17(t *testing.T) {
 	defer cleanupServerRoot()
 	RunProperty(t, Property[C17Case]{
-		ID: "C17",
-		Rule: "built with the Go race detector (halt_on_error: a data race ends the process and is reported as the violation). Three generated case kinds: handle - one handle on a multi-page file, 2-16 goroutines released together, each issuing a generated FetchFromArchive (any archive / window) or raw dump; sum - the sum command over 2-40 files (its per-file reads run concurrently) at a controlled clock; http - 2-24 parallel raw GETs of /view, /view-raw, /sum, /items, /files (explicit now in the query, existing and missing files) against the in-process server. Oracle: zero race reports, and every concurrent result equals the same call executed alone afterwards (fresh handle / fresh request; sum vs. files summed one at a time; byte-equal status+headers+body for HTTP). Non-trivial: >=2 calls on the same archive / >=2 files / >=2 requests in flight. Distinct = hash of the case.",
+		ID:          "C17",
+		Rule:        "built with the Go race detector (halt_on_error: a data race ends the process and is reported as the violation). Three generated case kinds: handle - one handle on a multi-page file, 2-16 goroutines released together, each issuing a generated FetchFromArchive (any archive / window) or raw dump; sum - the sum command over 2-40 files (its per-file reads run concurrently) at a controlled clock; http - 2-24 parallel raw GETs of /view, /view-raw, /sum, /items, /files (explicit now in the query, existing and missing files) against the in-process server. Oracle: zero race reports, and every concurrent result equals the same call executed alone afterwards (fresh handle / fresh request; sum vs. files summed one at a time; byte-equal status+headers+body for HTTP). Non-trivial: >=2 calls on the same archive / >=2 files / >=2 requests in flight. Distinct = hash of the case.",
 		Assumptions: []string{"OS scheduling is not controlled; the race detector reports unsynchronized conflicting accesses that actually executed", "the replay of a race is schedule dependent"},
 		Gen:         genC17,
 		Run:         runC17,
